@@ -60,6 +60,14 @@ var gfSpecs = []gfSpec{
 	{Pkg: "./pkg/core", Recv: "Blockchain", Func: "tryRunGC", Lean: "tryRunGC", Sink: "bc.stateRoot.GC"},
 	{Pkg: "./pkg/core", Recv: "Blockchain", Func: "verifyHeader", Lean: "verifyHeader"},
 	{Pkg: "./pkg/core/transaction", Recv: "Transaction", Func: "FeePerByte", Lean: "txFeePerByte"},
+	{Pkg: "./pkg/core", Recv: "Blockchain", Func: "verifyAndPoolTx", Lean: "verifyAndPoolTx"},
+		{Pkg: "./pkg/core/native", Recv: "Policy", Func: "setExecFeeFactor", Lean: "policySetExecFeeFactor", Sink: "setIntWithKey"},
+	{Pkg: "./pkg/core/native", Recv: "Policy", Func: "setStoragePrice", Lean: "policySetStoragePrice", Sink: "setIntWithKey"},
+	{Pkg: "./pkg/core/native", Recv: "Policy", Func: "setFeePerByte", Lean: "policySetFeePerByte", Sink: "setIntWithKey"},
+	{Pkg: "./pkg/core/native", Recv: "Policy", Func: "setAttributeFeeGeneric", Lean: "policySetAttributeFee", Sink: "setIntWithKey"},
+	{Pkg: "./pkg/core/native", Recv: "Policy", Func: "setMaxValidUntilBlockIncrement", Lean: "policySetMaxVUBIncrement", Sink: "setIntWithKey"},
+	{Pkg: "./pkg/core/native", Recv: "Policy", Func: "setMillisecondsPerBlock", Lean: "policySetMillisecondsPerBlock", Sink: "setIntWithKey"},
+	{Pkg: "./pkg/core/native", Recv: "Policy", Func: "setMaxTraceableBlocks", Lean: "policySetMaxTraceableBlocks", Sink: "setIntWithKey"},
 	{Pkg: "github.com/nspcc-dev/dbft", Recv: "Context", Func: "F", Lean: "dbftF"},
 	{Pkg: "github.com/nspcc-dev/dbft", Recv: "Context", Func: "M", Lean: "dbftM"},
 	{Pkg: "github.com/nspcc-dev/dbft", Recv: "Context", Func: "GetPrimaryIndex", Lean: "dbftPrimaryIndex"},
@@ -88,6 +96,7 @@ type gfTr struct {
 	leaves  map[string]string // source text -> lean name
 	locals  map[string]gfKind // Go local name -> kind
 	used    map[string]bool   // lean names in use
+	errOrigin map[string]string // local error variable -> name of the leaf it was last assigned from
 	resKind string            // "int" "bool" "err" "sink" "unit"
 	option  bool              // result wrapped in Option (panic or sink)
 }
@@ -337,12 +346,12 @@ func (t *gfTr) binary(x *ast.BinaryExpr) (string, gfKind) {
 			if gf_isNil(x.X) {
 				o = x.Y
 			}
-			s, k := t.expr(o)
-			if k != kErr {
-				// pointer/slice compared with nil: an opaque Bool leaf of its own
+			if !gf_isErrT(t.typeOf(o)) {
+				// pointer/slice compared with nil: an opaque Bool leaf of its own, named after the comparison
 				n, _ := t.leafAs(x, "Bool")
 				return "(" + n + " = true)", kProp
 			}
+			s, _ := t.expr(o)
 			if neg {
 				return "(" + s + " = true)", kProp
 			}
@@ -554,6 +563,9 @@ func (t *gfTr) stmts(ss []ast.Stmt) string {
 			}
 			if id, ok := r.(*ast.Ident); ok {
 				if k, isLocal := t.locals[id.Name]; isLocal && k == kErr {
+					if o := t.errOrigin[id.Name]; o != "" {
+						return t.wrapRes(`"` + o + `"`)
+					}
 					return t.wrapRes(`"err"`)
 				}
 			}
@@ -622,6 +634,9 @@ func (t *gfTr) stmts(ss []ast.Stmt) string {
 			}
 		} else if _, exists := t.locals[id.Name]; !exists {
 			t.fail(x, "assignment to non-local %s", id.Name)
+		}
+		if k == kErr {
+			t.errOrigin[id.Name] = v
 		}
 		n := t.bindLocal(id.Name, k)
 		return "let " + n + " := " + v + "\n" + t.stmts(rest)
@@ -755,6 +770,9 @@ func (t *gfTr) stmtsInit(s ast.Stmt) string {
 	id := as.Lhs[0].(*ast.Ident)
 	v, k := t.valueFor(as.Rhs[0])
 	delete(t.locals, id.Name) // an init variable may shadow: it is only visible inside the statement
+	if k == kErr {
+		t.errOrigin[id.Name] = v
+	}
 	n := t.bindLocal(id.Name, k)
 	return "let " + n + " := " + v + "\n"
 }
@@ -826,7 +844,7 @@ func gf_containsPanic(n ast.Node) bool {
 }
 
 func gfTranslate(p *packages.Package, fd *ast.FuncDecl, spec gfSpec) (def string, err error) {
-	t := &gfTr{p: p, spec: spec, leaves: map[string]string{}, locals: map[string]gfKind{}, used: map[string]bool{"wrapS": true}}
+	t := &gfTr{p: p, spec: spec, leaves: map[string]string{}, locals: map[string]gfKind{}, used: map[string]bool{"wrapS": true}, errOrigin: map[string]string{}}
 	defer func() {
 		if r := recover(); r != nil {
 			if ge, ok := r.(gfErr); ok {
